@@ -86,6 +86,10 @@ func anticipated(x *world) []*fcase {
 			}
 		}
 	}
+	// list-valued headers are split by hand-written code: every value class of the catalogue, in every run
+	for _, v := range attrVals {
+		add("get-object-attributes", "h:X-Amz-Object-Attributes", v.class, credValid)
+	}
 	// requests that announce no body length at all
 	for _, entry := range []string{"put-object", "upload-part", "put-bucket-tagging", "delete-objects", "complete-multipart-upload", "create-bucket"} {
 		for _, cl := range []string{"absent", "absent-and-no-body"} {
